@@ -161,6 +161,9 @@ def clone(deep):
     return d2
 
 
+_HIST = {"n": 0}
+
+
 async def real_validate(deep, soll, history=False):
     """-> ('ok', [entry dicts]) | ('error', exception name). With history: the SAME task first validates the same AHB under another content
     evaluation result and the other flag value (the judged run must not see anything of it: validation keeps no state between runs)"""
@@ -169,7 +172,9 @@ async def real_validate(deep, soll, history=False):
         d0 = clone(deep)
         setup_cer(d0, other=True)
         try:
-            await validate_deep_anwendungshandbuch(d0, soll_is_required=not soll)
+            _HIST["n"] += 1
+            # alternately the other flag value and the SAME flag value (a memo keyed with the flag but without the content shows only then)
+            await validate_deep_anwendungshandbuch(d0, soll_is_required=(not soll) if _HIST["n"] % 2 else soll)
         except BaseException:  # pylint:disable=broad-except  # noqa: BLE001 - only the judged run counts
             pass
     setup_cer(deep)
@@ -303,7 +308,7 @@ async def check_tree(mode, nodes, obs, sd, idx, acc):
                 d0 = clone(d2)
                 setup_cer(d0, other=True)
                 try:
-                    await _deep(d0, soll_is_required=not soll)
+                    await _deep(d0, soll_is_required=(not soll) if idx % 4 == 0 else soll)     # the other flag value, or the same flag with other content
                 except BaseException:  # pylint:disable=broad-except  # noqa: BLE001 - only the judged call counts
                     pass
             setup_cer(d2)
